@@ -104,6 +104,10 @@ use super::mvcc_helpers::wrap_record_into_buffer;
 
 pub struct FastLoaderStats {
     pub row_count: u64,
+    /// Root of the table B-tree after the load (a split of the root moves it); the caller
+    /// must store it in the table file header.
+    pub root_page: u32,
+    pub rightmost_hint: Option<u32>,
 }
 
 pub struct InsertBuffers {
@@ -189,6 +193,7 @@ impl<'db, 'schema, S: Storage> FastLoader<'db, 'schema, S> {
             BTree::with_rightmost_hint(self.table_storage, self.table_root, self.table_rightmost)?;
         btree.insert(&row_key, &self.buffers.mvcc_buffer)?;
         self.table_rightmost = btree.rightmost_hint();
+        self.table_root = btree.root_page();
 
         self.row_count += 1;
         Ok(row_id)
@@ -197,6 +202,8 @@ impl<'db, 'schema, S: Storage> FastLoader<'db, 'schema, S> {
     pub fn finish(self) -> Result<FastLoaderStats> {
         Ok(FastLoaderStats {
             row_count: self.row_count,
+            root_page: self.table_root,
+            rightmost_hint: self.table_rightmost,
         })
     }
 }
